@@ -78,12 +78,9 @@ theorem upAlter_table (g : Globals) (c : Column) (tb after : String) : ∀ s ∈
   · rw [List.mem_singleton.mp hs]; rfl
   · rw [List.mem_singleton.mp hs]; rfl
 
-/-- **C01, the column clause on the reference engine, at the level of the database.**  Under the hypotheses of
-    `columns_spec_up`: executed on the reference engine's old *schema* (referential checks aside), the statements
-    `MigrationColumnUp` prints for the table are well-formed at every step; afterwards the table's column list is
-    equal to the new side's (same columns, same order, same types, same options up to order) and every other table is
-    untouched. -/
-theorem columns_spec_up_db (g : Globals) (hg : g.dialect = .mysql) (hio : g.ignoreOrder = false) (rc : Bool)
+/-- what `columns_spec_up_db` needs, before the lift to the database: the run on the column list, and that every printed
+    column statement is about table `t` and carries a definition without PRIMARY KEY flag -/
+theorem columns_spec_up_pre (g : Globals) (hg : g.dialect = .mysql) (hio : g.ignoreOrder = false) (rc : Bool)
     (old new : List Stmt) (dbO dbN : DB) (ho : old.all Stmt.elemSafe = true) (hn : new.all Stmt.elemSafe = true)
     (hpo : old.all Stmt.plainOpts = true) (hpn : new.all Stmt.plainOpts = true)
     (heo : execAll rc [] old = some dbO) (hen : execAll rc [] new = some dbN)
@@ -92,10 +89,11 @@ theorem columns_spec_up_db (g : Globals) (hg : g.dialect = .mysql) (hio : g.igno
     (hc : Abs.OrderCompatible tbN.colNames tbO.colNames) (hne : ∀ n ∈ tbN.colNames ++ tbO.colNames, n ≠ "")
     (hncO : ∀ c ∈ tbO.cols, ∀ k ∈ c.opts, k.noComment = true)
     (hncN : ∀ c ∈ tbN.cols, ∀ k ∈ c.opts, k.noComment = true) :
-    ∃ td ∈ d.tables, td.name = t ∧ td.migrationColumnUp g = .ok (Table.walkCols g t true [] td.cols) ∧
-      ∃ db' tb', execAll false dbO (Table.walkCols g t true [] td.cols).1 = some db' ∧
-        db'.find t = some tb' ∧ colsEquiv tb'.cols tbN.cols = true ∧
-        (∀ u, u ≠ t → db'.find u = dbO.find u) ∧ db'.map (·.name) = dbO.map (·.name) := by
+    ∃ td ∈ d.tables, td.name = t ∧ td.action = .none ∧
+      td.migrationColumnUp g = .ok (Table.walkCols g t true [] td.cols) ∧
+      ∃ cols', colExecAll tbO.cols (Table.walkCols g t true [] td.cols).1 = some cols' ∧ colsEquiv cols' tbN.cols = true ∧
+        (∀ s ∈ (Table.walkCols g t true [] td.cols).1, s.table = t ∧ s.defNoPk = true) ∧
+        (dbO.map (·.name)).Nodup := by
   have hoc : old.all Stmt.colSafe = true :=
     List.all_eq_true.mpr (fun s hs => Stmt.colSafe_of_elemSafe s (List.all_eq_true.mp ho s hs))
   have hnc : new.all Stmt.colSafe = true :=
@@ -216,7 +214,29 @@ theorem columns_spec_up_db (g : Globals) (hg : g.dialect = .mysql) (hio : g.igno
       show (!(colOf cd).2) = true
       rw [key cd (Or.inr ⟨t2, rfl⟩)]; rfl
     | _ => rfl
-  obtain ⟨db', tb', he', hf', hc', hother, hnames'⟩ := execAll_of_colExecAll _ dbO t tbO cols' hro.nodup hfo hss hex
+  exact ⟨td, htd, hname, hact, hup, cols', hex, heq, hss, hro.nodup⟩
+
+/-- **C01, the column clause on the reference engine, at the level of the database.**  Under the hypotheses of
+    `columns_spec_up`: executed on the reference engine's old *schema* (referential checks aside), the statements
+    `MigrationColumnUp` prints for the table are well-formed at every step; afterwards the table's column list is
+    equal to the new side's (same columns, same order, same types, same options up to order) and every other table is
+    untouched. -/
+theorem columns_spec_up_db (g : Globals) (hg : g.dialect = .mysql) (hio : g.ignoreOrder = false) (rc : Bool)
+    (old new : List Stmt) (dbO dbN : DB) (ho : old.all Stmt.elemSafe = true) (hn : new.all Stmt.elemSafe = true)
+    (hpo : old.all Stmt.plainOpts = true) (hpn : new.all Stmt.plainOpts = true)
+    (heo : execAll rc [] old = some dbO) (hen : execAll rc [] new = some dbN)
+    (d : Migration) (hd : loadAndDiff g old new = .ok d)
+    (t : String) (tbO tbN : TableSpec) (hfo : dbO.find t = some tbO) (hfn : dbN.find t = some tbN)
+    (hc : Abs.OrderCompatible tbN.colNames tbO.colNames) (hne : ∀ n ∈ tbN.colNames ++ tbO.colNames, n ≠ "")
+    (hncO : ∀ c ∈ tbO.cols, ∀ k ∈ c.opts, k.noComment = true)
+    (hncN : ∀ c ∈ tbN.cols, ∀ k ∈ c.opts, k.noComment = true) :
+    ∃ td ∈ d.tables, td.name = t ∧ td.migrationColumnUp g = .ok (Table.walkCols g t true [] td.cols) ∧
+      ∃ db' tb', execAll false dbO (Table.walkCols g t true [] td.cols).1 = some db' ∧
+        db'.find t = some tb' ∧ colsEquiv tb'.cols tbN.cols = true ∧
+        (∀ u, u ≠ t → db'.find u = dbO.find u) ∧ db'.map (·.name) = dbO.map (·.name) := by
+  obtain ⟨td, htd, hname, _, hup, cols', hex, heq, hss, hnd⟩ := columns_spec_up_pre g hg hio rc old new dbO dbN ho hn hpo hpn heo hen d hd
+    t tbO tbN hfo hfn hc hne hncO hncN
+  obtain ⟨db', tb', he', hf', hc', hother, hnames'⟩ := execAll_of_colExecAll _ dbO t tbO cols' hnd hfo hss hex
   exact ⟨td, htd, hname, hup, db', tb', he', hf', by rw [hc']; exact heq, hother, hnames'⟩
 
 end Sqlize
